@@ -53,4 +53,6 @@ def install_steps(step_globals):
 def make_disk_hooks():
     plan = get_plan()
     hooks = harness.make_hooks(plan)
+    if plan.no_before_all:
+        hooks.pop("before_all", None)
     return hooks
